@@ -74,6 +74,22 @@ func checkJSONTags(c *Ctx, rule string, root types.Type, allowDash map[string]st
 	for _, n := range cl {
 		inCl[n] = true
 	}
+	// a type that encodes itself (MarshalJSON & co.) decides its member names in code: the tags of that type and of
+	// everything it contains no longer say what is written, so nothing below is evidence either way
+	custom := map[*types.Named][]string{}
+	anyCustom := false
+	for _, n := range cl {
+		for _, recv := range []types.Type{n, types.NewPointer(n)} {
+			ms := types.NewMethodSet(recv)
+			for i := 0; i < ms.Len(); i++ {
+				switch ms.At(i).Obj().Name() {
+				case "MarshalJSON", "UnmarshalJSON", "MarshalText", "UnmarshalText":
+					custom[n] = append(custom[n], ms.At(i).Obj().Name())
+					anyCustom = true
+				}
+			}
+		}
+	}
 	for _, n := range cl {
 		st := n.Underlying().(*types.Struct)
 		structs++
@@ -122,16 +138,6 @@ func checkJSONTags(c *Ctx, rule string, root types.Type, allowDash map[string]st
 				problems = append(problems, q+" has type "+tname(f.Type())+", outside {string,int,bool,float,struct,slice,map[string]T}")
 			}
 		}
-		// custom marshalers
-		for _, recv := range []types.Type{n, types.NewPointer(n)} {
-			ms := types.NewMethodSet(recv)
-			for i := 0; i < ms.Len(); i++ {
-				switch ms.At(i).Obj().Name() {
-				case "MarshalJSON", "UnmarshalJSON", "MarshalText", "UnmarshalText":
-					problems = append(problems, n.Obj().Name()+" has a custom "+ms.At(i).Obj().Name())
-				}
-			}
-		}
 		sort.Strings(problems)
 		// dedupe
 		u := problems[:0]
@@ -139,6 +145,15 @@ func checkJSONTags(c *Ctx, rule string, root types.Type, allowDash map[string]st
 			if i == 0 || p != problems[i-1] {
 				u = append(u, p)
 			}
+		}
+		if anyCustom {
+			sort.Strings(custom[n])
+			why := "a type in this closure encodes itself; the member names are decided in that code, not by the tags"
+			if len(custom[n]) > 0 {
+				why = n.Obj().Name() + " has its own " + strings.Join(dedupe(custom[n]), ", ") + ": the member names are decided in that code, not by the tags"
+			}
+			c.undecided(rule, n.Obj().Pkg().Name()+"."+n.Obj().Name(), n.Obj().Pos(), why)
+			continue
 		}
 		c.check(len(u) == 0, rule, n.Obj().Pkg().Name()+"."+n.Obj().Name(), n.Obj().Pos(), fmt.Sprintf("%d fields: exported, unique JSON names, plain kinds, no omitempty on collections, no custom marshaler", st.NumFields()), strings.Join(u, "; "))
 	}
